@@ -304,7 +304,11 @@ impl Tablet {
         let mut any_updated = false;
         for (node, _) in self.replicas.all.iter_mut() {
             if let Some(new_node) = recreated_nodes.get(&node.host_id) {
-                assert!(!Arc::ptr_eq(new_node, node));
+                if Arc::ptr_eq(new_node, node) {
+                    // This replica was resolved against the current nodes during
+                    // this very maintenance, so it already is the new object.
+                    continue;
+                }
                 any_updated = true;
                 *node = Arc::clone(new_node);
             }
